@@ -1,4 +1,5 @@
 import FlatModel.Props.C18
+import FlatModel.Props.UniverseHeap
 #print axioms FC.C18.reach_capInv
 #print axioms FC.C18.used_le_cap
 #print axioms FC.C18.push_monotone
@@ -20,3 +21,8 @@ import FlatModel.Props.C18
 #print axioms FC.C18.lower_bound_owned
 #print axioms FC.C18.lower_bound_string
 #print axioms FC.C18.lower_bound_slice
+#print axioms FC.Universe.C18_every_composition
+#print axioms FC.Universe.C18_default_floor
+#print axioms FC.Universe.C18_clear_caps_every_composition
+#print axioms FC.Universe.C18_clear_default_every_composition
+#print axioms FC.Universe.C18_clear_columns
